@@ -117,14 +117,14 @@ Each sub-agent received only the text of one property and its own scratch git wo
 for a small change that breaks the property, compiles, keeps the 128 passing tests passing and needs something specific to manifest, with a
 demonstration. Each change was confirmed here (demo passes on the clean tree, fails with the patch, no passing test lost — `tools/seed_verify.py`)
 and is kept as `seeded/<id>/{patch.diff, demo.py, notes.md, meta.json}`; none was ever committed to `/repo` (applied with `git apply`, checks run,
-`git checkout -- .`). 118 faults: two per property in a first round, two per property in a second round (ids `-c`, `-d`; C05 one) and two per property in a third round (ids `-e`, `-f`; C02 one) in which the sub-agents were
+`git checkout -- .`). 132 faults: two per property in a first round, two per property in a second round (ids `-c`, `-d`; C05 one), two per property in a third round (ids `-e`, `-f`; C02 one) and two more for the seven properties with the most misses so far in a fourth round (ids `-g`, `-h`: C02, C05, C06, C07, C09, C12, C17), in which the sub-agents were
 additionally told which code sites (function names only) had been used before (two faults were discarded as re-discoveries of stored ones: C05-d = C01-d, C02-f = C01-a; two stored C19 patches were rebased by hand, mechanism unchanged, when the F16 repair touched the same loop). **No request was refused** by the permission system or a safety layer at any step.
 
 SEEDTABLE
 
-Twenty-seven faults were missed on the first run by the check of their own property (bold above): in twenty-five cases the generator did not reach the specific
+Thirty-three faults were missed on the first run by the check of their own property (bold above): in thirty-one cases the generator did not reach the specific
 trigger (in C17-f: the harness never used the same input object twice), in one (C05-c) the faulty reader crashed the node process and the check called that an infrastructure error, and in one (C18-c) the check stopped observing when the
-concurrent reads had returned, so a cache left inconsistent was never read again. The checks were strengthened (last column) and all 118 are now detected by the check of their own property (the first 79 also with `VERIF_SEED=1`);
+concurrent reads had returned, so a cache left inconsistent was never read again. The checks were strengthened (last column) and all 132 are now detected by the check of their own property (the first 79 also with `VERIF_SEED=1`);
 `tools/reseed_all.py` re-applies every stored fault and re-runs its check (regression of the mutation corpus).
 
 ### 0.6 What the tooling could not do
